@@ -147,6 +147,7 @@ func RunC18(d *Driver) *Report {
 		{"ro.evy", "if true\nprint 1\nelse\nprint 2\nend\n", 0o444, false, ""}, // read-only for everybody
 		{"ro2.evy", "z:=3\nprint   z\n", 0o400, false, ""},
 		{"wide.evy", "w:=4\nprint   w\n", 0o666, false, ""},
+		{"long.evy", "v:=5\n" + strings.Repeat("print   v  v  v  v  v  v  v  v  v  v  v  v  v  v\n", 40), 0o644, false, ""}, // more than one read
 		{"arch.txtar", "notes\n-- a.evy --\nx:=1\nprint   x\n-- keep.txt --\nkeep   this  as it is\n-- b.evy --\nif true\nprint 1\nend\n", 0o640, false,
 			"notes\n-- a.evy --\nx := 1\nprint x\n-- keep.txt --\nkeep   this  as it is\n-- b.evy --\nif true\n    print 1\nend\n"},
 	}
@@ -303,6 +304,27 @@ func RunC18(d *Driver) *Report {
 				r.Hist("fault", fault)
 				r.Hist("syscall", e.name)
 				check(inj, pr)
+			}
+		}
+		// a failing read of the source itself (the k-th read on the file, found by path): nothing may be written from a
+		// partial text, and -c may not accept it
+		if !f.symlink {
+			for k := 1; k <= 3; k++ {
+				for _, fault := range []string{"error=EIO", "error=EINTR"} {
+					restore()
+					inj := fmt.Sprintf("read:%s:when=%d", fault, k)
+					pr := runProc(30*time.Second, "", "strace", "-f", "-qq", "-o", "/dev/null", "-P", path, "-e", "trace=read", "-e", "inject="+inj, bin, "fmt", "-w", path)
+					r.Count(f.name+":"+inj, true)
+					r.Hist("fault", "read "+fault)
+					check(inj+" on the source", pr)
+					if f.formatted == "" && f.content != formatted {
+						restore()
+						pc := runProc(30*time.Second, "", "strace", "-f", "-qq", "-o", "/dev/null", "-P", path, "-e", "trace=read", "-e", "inject="+inj, bin, "fmt", "-c", path)
+						if pc.Exit == 0 || string(mustRead(path)) != f.content {
+							r.Violation(Case{Stream: "fault", Input: map[string]any{"file": f.name, "content": f.content, "injection": inj + " on the source, fmt -c"}, Real: fmt.Sprintf("exit=%d", pc.Exit), Spec: "fmt -c exits zero exactly for formatted input and modifies nothing (this file is not formatted)"})
+						}
+					}
+				}
 			}
 		}
 		if f.formatted != "" {
